@@ -251,10 +251,14 @@ func genC13Fault(r *simrt.RNG) *Case {
 		n = r.Intn(pl.Chunk) // in-memory only: faults can only hit New
 	}
 	pl.Cycles = []MCycle{{Keys: genKeys(r, n), Drain: -1}}
-	if r.Intn(5) == 0 {
-		// a fault in the second cycle of a reused sorter
-		pl.Cycles = append([]MCycle{{Keys: genKeys(r, r.Intn(3*pl.Chunk+1)), Drain: -1}}, pl.Cycles...)
-		pl.AutoClear = r.Bool()
+	if r.Intn(3) == 0 {
+		// a reused sorter: faults in either cycle; in sequential mode the
+		// client recovers from a reported error with Clear and goes on
+		pl.Cycles = append([]MCycle{{Keys: genKeys(r, pl.Chunk+r.Intn(2*pl.Chunk+1)), Drain: -1}}, pl.Cycles...)
+		if r.Intn(3) == 0 {
+			pl.Cycles = append(pl.Cycles, MCycle{Keys: genKeys(r, pl.Chunk+r.Intn(2*pl.Chunk+1)), Drain: -1})
+		}
+		pl.AutoClear = r.Intn(3) != 0
 	}
 	c := &Case{Prop: "C13", Kind: "morass-fault", Plan: marshalPlan(pl)}
 	if pl.Concurrent {
@@ -320,6 +324,7 @@ func exploreC13(t *testing.T, w *Worker, r *simrt.RNG) {
 	explicit := base.Sched
 	explicit.Explicit = true
 	explicit.Choices = dry.Choices
+	twoFault := 0
 	for _, io := range dry.IOLog {
 		if !listedFaultKinds[io.Kind] {
 			continue
@@ -335,6 +340,25 @@ func exploreC13(t *testing.T, w *Worker, r *simrt.RNG) {
 			res := runMorass(t, &c, RunOpts{})
 			w.Stats.Probes[fmt.Sprintf("fault_position[%s]", io.Kind)]++
 			w.Report(&c, res)
+			// a second fault in a later cycle, after the client has recovered
+			// from the first with Clear (sequential mode, several cycles)
+			if !pl.Concurrent && len(pl.Cycles) > 1 && res.Viol == nil && res.Probes["recovered_with_clear_after_error"] > 0 && twoFault < 6 && len(res.Fired) == 1 {
+				var later []simrt.IORecord
+				for _, x := range res.IOLog {
+					if listedFaultKinds[x.Kind] && x.Ordinal > res.Fired[0].Ordinal {
+						later = append(later, x)
+					}
+				}
+				if len(later) > 0 {
+					twoFault++
+					x := later[r.Intn(len(later))]
+					c3 := c
+					c3.Faults = []simrt.FaultSpec{c.Faults[0], {Ordinal: x.Ordinal, After: x.Kind == "encode" && r.Bool()}}
+					res3 := runMorass(t, &c3, RunOpts{})
+					w.Stats.Probes["two_fault_runs"]++
+					w.Report(&c3, res3)
+				}
+			}
 			if pl.Concurrent {
 				// pair the fault position with other caller/writer orderings,
 				// among them "the other writers run on while the failed one
